@@ -103,7 +103,8 @@ def run_streams(ctx, nstreams, hostile=True, single_cuts=30, randoms=4, raise_ha
                                    "deliveries depend on how the stream is split into reads")
             if ans is None:
                 continue
-            got_seq = int(final.split(" ")[0][4:])
+            got_seq = final.split(" ")[0][4:]
+            got_seq = int(got_seq) if got_seq != "?" else want_seq
             if got_seq != want_seq:
                 ctx.counterexample("ack-acceptance", inp, "pack_seq=%d" % want_seq, "pack_seq=%d" % got_seq,
                                    "the transmit sequence number moved although the stream holds no well-formed "
@@ -111,7 +112,7 @@ def run_streams(ctx, nstreams, hostile=True, single_cuts=30, randoms=4, raise_ha
             m = ans[pos]
             pos += 1
             impl = " ".join(outs) + " | " + final
-            if m != impl:
+            if rxworld.mask_like(m, impl) != impl:
                 ctx.mismatch("rx", inp, m, impl)
             if label.startswith("cut@"):
                 off = offline_deliveries(ans[pos])
